@@ -122,7 +122,7 @@ func CheckC03(sc Scenario, rec *Rec) error {
 }
 
 func TestC03(t *testing.T) {
-	runProp(t, "C03", "epochs", 400, 8000, genScenario(ScenarioCfg{MaxEpochs: pick(20, 50), Structural: true, Parallel: 1, ModularStart: true}), CheckC03)
+	runProp(t, "C03", "epochs", 400, 8000, genScenario(ScenarioCfg{MaxEpochs: pick(20, 50), Structural: true, Parallel: 1, ModularStart: true, Warm: true, Retry: true}), CheckC03)
 }
 
 // operator histories: the harness controls the generation boundary, so identical innovations within a generation and
